@@ -1023,7 +1023,8 @@ func (env *SpecEnv) call(n *ECall) *Value {
 		}
 		t := x.eng.findType(s.V)
 		if t == nil {
-			sfail("unknown type %s", s.V)
+			// the package declaring the type is not loaded: no value of this program has that dynamic type
+			return mkBool(TFalse)
 		}
 		return mkBool(Eq(v.C[0], IntLit(int64(x.eng.typeID(t)))))
 	case "ref":
